@@ -78,6 +78,11 @@ def dependency_layer(rep, tier, groups=('fragments', 'runtime', 'nodes', 'wiring
         generic = lambda name: name.split(':', 1)[-1].startswith('G-') or 'safety:' in name
         run_fragments(rep, core.CORE + lists.LISTS + bind.BIND + call.CALL, tier, clause_filter=generic,
                       only_cfg=lambda c, cfg: len(cfg.get('flags', [])) <= 2, skip_done=True, unit_filter=not_known)
+        # operator tables: two mid-size configurations (prefix+infix, postfix+infix rows; partially succeeding operand) with ALL their clauses -
+        # stack safety, position protocol (the end that parse() reports), tree shape; the full configuration table is C02's own part
+        from contracts import optable
+        run_fragments(rep, optable.OPTABLE, tier, only_cfg=lambda c, cfg: bool(cfg.get('infix')) and (bool(cfg.get('prefix')) != bool(cfg.get('postfix')))
+                      and cfg.get('operand') == 'PS' and cfg.get('ops') == 'PS', skip_done=True, unit_filter=not_known)
     if 'runtime' in groups:
         run_rt(rep, rt_run.RUN + rt_final.FINAL + rt_errors.RT + rt_misc.EXC + rt_walk.WALK + rt_objects.OBJECTS + rt_objects.MORE + rt_transform.TRANSFORM,
                tier, skip_done=True, unit_filter=not_known)
@@ -87,7 +92,8 @@ def dependency_layer(rep, tier, groups=('fragments', 'runtime', 'nodes', 'wiring
     if 'wiring' in groups:
         fns += [wiring.entry_point_obligations, wiring.rule_wrapper_obligations, wiring.ref_resolution_obligations, wiring.ignore_wiring_obligations,
                 wiring.visit_reaches_every_child, wiring.memo_key_obligations, wiring.no_direct_rule_calls, wiring.ignored_rule_is_memoised,
-                wiring.derived_namespace_obligations]
+                wiring.derived_namespace_obligations, wiring.spill_obligations, wiring.captured_argument_order_obligations,
+                wiring.symbol_counter_obligations]
     if 'front' in groups:
         fns += [wiring.frontend_literal_obligations, wiring.frontend_definition_obligations]
     for fn in fns:
